@@ -197,6 +197,7 @@ fn run_w<const B: usize, const L: usize>(scn: &Obj) -> Value {
             ev.rec("json", || match serde_json::from_slice::<U<B, L>>(&x) { Ok(v) => ok1(v), Err(_) => err() });
             ev.rec("jsonbits", || match serde_json::from_slice::<Bits<B, L>>(&x) { Ok(v) => ok1(v), Err(_) => err() });
             ev.rec("bincode", || match bincode::deserialize::<U<B, L>>(&x) { Ok(v) => ok1(v), Err(_) => err() });
+            ev.rec("bincodebits", || match bincode::deserialize::<Bits<B, L>>(&x) { Ok(v) => ok1(v), Err(_) => err() });
             // the visitor's integer entry points, which the text formats above reach only for small numbers: a u64 / u128
             // handed over by the data format (the first 8 / 16 input bytes, little-endian), and a byte-string visitor call
             {
